@@ -139,12 +139,16 @@ def gen_case(rng, nmax=10):
                     for _ in s['sensors']],
              nominal=rng.choice(['truth', 'computed']),
              none_models=bool(rng.random() < 0.1))
+    if s.get('increments') and rng.random() < 0.5:
+        c['refine'] = dict(k=[rng.choice([1, 2, 2, 3, 5]) for _ in range(len(s['epochs']) - 1)],
+                           lead=sorted({s['epochs'][0] - d for d in rng.sample([1, 2, 3, 5, 8, 13], rng.randint(0, 2))}))
     return c
 
 
 def key_of(c):
     return (S.key_of(dict(c['sched'], models=0)), tuple(c['gm']['bias'] + c['gm']['walk'] + c['gm']['noise'] + c['gm']['sm']),
-            tuple(c['am']['bias'] + c['am']['walk'] + c['am']['noise'] + c['am']['sm']), c['nominal'], c['none_models'])
+            tuple(c['am']['bias'] + c['am']['walk'] + c['am']['noise'] + c['am']['sm']), c['nominal'], c['none_models'],
+            json.dumps(c.get('refine'), sort_keys=True))
 
 
 def make_model(spec, scale):
@@ -157,6 +161,20 @@ def make_model(spec, scale):
     return inertial_sensor.EstimationModel(bias_sd=b, noise=n, bias_walk=w, scale_misal_sd=sm)
 
 
+def inc_epochs(c):
+    """ticks of the samples of the increment table (a superset of the trajectory rows)"""
+    ep = c['sched']['epochs']
+    rf = c.get('refine')
+    if not rf:
+        return list(ep)
+    out = [t for t in rf.get('lead', []) if 0 <= t < ep[0]]
+    for i, (a, b) in enumerate(zip(ep, ep[1:])):
+        k = max(1, min(int(rf['k'][i % len(rf['k'])]), b - a))
+        out += [a + (b - a) * j // k for j in range(k)]
+    out.append(ep[-1])
+    return sorted(set(out))
+
+
 def build(c):
     """inputs of run_feedforward_filter for case c"""
     import pandas as pd
@@ -165,12 +183,17 @@ def build(c):
     s = c['sched']
     ep = s['epochs']
     assert all(0 <= t < len(traj) for t in ep) and all(a < b for a, b in zip(ep, ep[1:]))
-    increments = strapdown.compute_increments_from_imu(imu.iloc[ep], 'rate')
-    pva0 = traj.iloc[ep[0]]
+    # the increment table may be FINER than the trajectory handed to the filter and may start earlier
+    # (c['refine'] = dict(k=[sub-intervals per row gap], lead=[ticks of extra samples before the first row])):
+    # the trajectory rows are then a sub-sample of the integrated samples, as with trajectory.iloc[::5]
+    fine = inc_epochs(c)
+    increments = strapdown.compute_increments_from_imu(imu.iloc[fine], 'rate')
+    pva0 = traj.iloc[fine[0]]
     err = sim.generate_pva_error(3.0, 0.3, 0.2, 0.5, rng=7)
     initial = sim.perturb_pva(pva0, err)
     initial.name = pva0.name
     computed = strapdown.Integrator(initial, True).integrate(increments)
+    computed = computed.loc[[_sec(t) for t in ep]]
     nominal = traj.iloc[ep] if c['nominal'] == 'truth' else computed.copy()
     meas = None
     if s['meas_mode'] == 'empty':
@@ -959,7 +982,7 @@ def corpus():
     return [
         dict(common_, sched=sched(), gm=none, am=none, msd=[], lever=[], nominal='truth', none_models=True),
         dict(common_, sched=sched(meas_mode='empty', alt=False, increments=True, step=40), gm=full, am=bias,
-             msd=[], lever=[], nominal='computed', none_models=False),
+             msd=[], lever=[], nominal='computed', none_models=False, refine=dict(k=[5, 2, 1, 3], lead=[505, 509])),
         dict(common_, sched=sched(meas_mode='list', increments=True, step=2,
                                   sensors=[['Position', [530, 560]], ['NedVelocity', []], ['BodyVelocity', [100, 545]]]),
              gm=bias, am=full, msd=[1.0, 0.3, 0.2], lever=[[0.5, -0.2, 0.3], None, None], nominal='truth',
@@ -1160,6 +1183,7 @@ def process(r, cases, label, max_report=3):
         dist['gyro states:%d' % (sum(c['gm']['bias']) + sum(c['gm']['sm']))] += 1
         dist['accel states:%d' % (sum(c['am']['bias']) + sum(c['am']['sm']))] += 1
         dist['nominal:' + c['nominal']] += 1
+        dist['increments:' + ('finer than the trajectory' if c.get('refine') else 'same rows' if s.get('increments') else 'not passed')] += 1
         dist['models:' + ('None' if c['none_models'] else 'given')] += 1
         r.case(key_of(c), sample=dict(case={k: v for k, v in c.items()},
                                       summary={k: o.get(k) for k in ('status', 'worst', 'cond', 'n_states', 'n_blocks', 'n_rows')}),
